@@ -55,6 +55,7 @@ def run(ctx):
     ctx.notes.append('entry points: %s' % ', '.join(sorted({r.entry.name for r in recs})))
     translation(ctx)
     bindings(ctx)
+    subscript_axes(ctx, 'C02.6')
     linearisation(ctx)
 
 
@@ -193,6 +194,38 @@ def bindings(ctx):
     ctx.floor('C02.6', 30, 'tagged argument bindings')
 
 
+def subscript_axes(ctx, rule):
+    """AT1: in a three-element subscript of a cube (IL, XL, Z order) each element that carries a definite axis tag
+    (through the names of its slice bounds / step) stands in the position of that axis."""
+    P = ctx.P
+    n = 0
+    for f in P.functions.values():
+        if f.module.name not in ('read', 'accessors', 'sgz_xarray', 'tools', 'segyio_emulator'):
+            continue
+        for sub in ast.walk(f.node):
+            if not (isinstance(sub, ast.Subscript) and isinstance(sub.slice, ast.Tuple) and len(sub.slice.elts) == 3):
+                continue
+            tags = []
+            for e in sub.slice.elts:
+                parts = [x for x in ((e.lower, e.upper, e.step) if isinstance(e, ast.Slice) else (e,)) if x is not None]
+                ax = {axis_of_text(U(x_)) for x_ in parts for x_ in ast.walk(x_) if isinstance(x_, (ast.Name, ast.Attribute))}
+                ax -= {None, 'MIXED'}
+                tags.append(ax.pop() if len(ax) == 1 else None)
+            if sum(t is not None for t in tags) < 2:
+                continue
+            n += 1
+            want = ['IL', 'XL', 'Z']
+            bad = [(k, t) for k, t in enumerate(tags) if t is not None and t != want[k]]
+            if bad:
+                k, t = bad[0]
+                ctx.fail(rule, f, enclosing_stmt(sub), 'position %d (%s) of the cube subscript `%s` is indexed with a %s quantity' % (
+                    k, want[k], U(sub.slice)[:70], t), line=sub.lineno)
+            else:
+                ctx.ok(rule, f, sub, 'subscript elements stand in the positions of their axes %s' % tags, nontrivial=True)
+    if n < 4:
+        raise AnalysisError('cube subscripts with axis-tagged elements: only %d found' % n)
+
+
 def linearisation(ctx):
     """C02.7"""
     P, G = ctx.P, ctx.G
@@ -279,6 +312,22 @@ def linearisation(ctx):
             ok = coef_d == want and N0 not in [A(a) for a in p.atoms()]
             # the start trace (d = 0) lies on an edge of the grid: IL*N1 + XL with IL or XL at an end
             edge_ok = rest in (cd * N1, -cd + 0 * N1, cd + 0 * N1, (cd - N1 + 1) * N1 + N1 - 1)
+            # the start belongs to the half of the family selected by the enclosing test
+            q, child, side = parent(c), c, None
+            while q is not None and q is not f.node:
+                if isinstance(q, ast.If) and isinstance(q.test, ast.Compare) and len(q.test.ops) == 1 and U(q.test.left) == diag:
+                    inbody = any(child is s_ or any(child is x for x in ast.walk(s_)) for s_ in q.body)
+                    op, rhs = type(q.test.ops[0]), U(q.test.comparators[0])
+                    if slope_xl > 0 and rhs == '0' and op in (ast.GtE, ast.Lt):
+                        side = 'first' if (op is ast.GtE) == inbody else 'second'
+                    if slope_xl < 0 and rhs == 'self.n_xlines' and op in (ast.Lt, ast.GtE):
+                        side = 'first' if (op is ast.Lt) == inbody else 'second'
+                child, q = q, parent(q)
+            want_rest = {(1, 'first'): cd * N1, (1, 'second'): -cd + 0 * N1, (-1, 'first'): cd + 0 * N1,
+                         (-1, 'second'): (cd - N1 + 1) * N1 + N1 - 1}.get((slope_xl, side))
+            if side is None:
+                raise AnalysisError('%s: the test selecting the half of the diagonal family was not recognised' % name)
+            edge_ok = edge_ok and rest == want_rest
             if ok and edge_ok:
                 ctx.ok('C02.7', f, c, 'index = (IL0 + d)*n_xl + (XL0 %s d): slope %r, start %r' % (
                     '+' if slope_xl > 0 else '-', coef_d, rest), sample={'poly': repr(p)})
@@ -286,4 +335,6 @@ def linearisation(ctx):
                 ctx.fail('C02.7', f, enclosing_stmt(c), 'trace index `%s` = %r along the diagonal: slope in d is %r (must be '
                          'n_xlines %s 1), start %r' % (U(c.args[0])[:60], p, coef_d, '+' if slope_xl > 0 else '-', rest),
                          line=c.lineno)
+    from .. import diaglen
+    diaglen.check(ctx, 'C02.7')
     ctx.floor('C02.7', 5)
